@@ -300,8 +300,8 @@ def has_lower(op):
 
 
 def slow_streams(rng, fs, tier, rads):
-    """one stream of `sl` ops for the generic radices of `rads` the feature set supports; upper-case digits only
-    (lower-case spellings of letter digits are a separate stream: `compare_bytes` mis-orders them - finding)"""
+    """`sl` ops for the generic radices of `rads` the feature set supports; `comp-sl-lower`: lower-case spellings of
+    letter digits in odd radices (`compare_bytes` mis-ordered them until /repo 6651793)"""
     sup = gens.radices(fs)
     rads = [r for r in rads if r in sup and r not in POW2]
     if not rads:
